@@ -158,6 +158,8 @@ MUTANTS = [
      "if( ( m_size != 0 ) && ( reinterpret_cast< intptr_t >( m_data ) == -1 ) ) {", "if( ( m_size == 0 ) && ( reinterpret_cast< intptr_t >( m_data ) == -1 ) ) {", ["C07"], "MAP_FAILED not detected"),
     ("m61-istream-error-as-eof", I + "internal/istream_reader.hpp",
      "         if( m_istream.eof() ) {\n            return 0;\n         }", "         if( m_istream.eof() || m_istream.bad() ) {\n            return 0;\n         }", ["C07"], "badbit treated as end of input"),
+    ("m62-check-bytes-ge", I + "contrib/check_bytes.hpp",
+     "if( std::size_t( in.current() - start ) > Maximum ) {", "if( std::size_t( in.current() - start ) > Maximum + 1 ) {", ["C18"], "check_bytes lets one byte too many through"),
     ("m58-discard-threshold", I + "buffer_input.hpp",
      "if( m_current.data > m_buffer.get() + Chunk ) {", "if( m_current.data > m_buffer.get() + 2 * Chunk ) {", ["C07"], "discard() a no-op more often than documented: overflow_error inside the guarantee"),
 ]
